@@ -72,7 +72,7 @@ func (g *Gen) Intn(n int) int {
 	}
 	return g.R.IntN(n)
 }
-func (g *Gen) Bool() bool         { return g.R.IntN(2) == 0 }
+func (g *Gen) Bool() bool          { return g.R.IntN(2) == 0 }
 func (g *Gen) Prob(p float64) bool { return g.R.Float64() < p }
 func (g *Gen) Range(lo, hi int) int {
 	if hi <= lo {
@@ -131,6 +131,7 @@ type Sim struct {
 	// Invariant, when set, is evaluated after every step at quiescence.
 	Invariant func()
 	stopped   bool
+	idleQ     time.Duration
 	Hung      bool
 	States    map[string]struct{}
 	actors    int
@@ -183,7 +184,11 @@ func (s *Sim) Logf(format string, a ...any) uint64 {
 	return s.seq
 }
 
-func (s *Sim) Log() []string { s.mu.Lock(); defer s.mu.Unlock(); return append([]string(nil), s.log...) }
+func (s *Sim) Log() []string {
+	s.mu.Lock()
+	defer s.mu.Unlock()
+	return append([]string(nil), s.log...)
+}
 
 func (s *Sim) TraceHash() string {
 	s.mu.Lock()
@@ -292,6 +297,21 @@ func (s *Sim) Actors() int { s.mu.Lock(); defer s.mu.Unlock(); return s.actors }
 
 func (s *Sim) Pending() int { s.mu.Lock(); defer s.mu.Unlock(); return len(s.events) }
 
+// Enabled reports the number of events that could run right now (events
+// scheduled for a later simulated instant, e.g. recurring timers, excluded).
+func (s *Sim) Enabled() int {
+	s.mu.Lock()
+	defer s.mu.Unlock()
+	now := s.Now()
+	n := 0
+	for _, e := range s.events {
+		if e.At <= now {
+			n++
+		}
+	}
+	return n
+}
+
 // Stop ends Run at the next iteration.
 func (s *Sim) Stop() { s.mu.Lock(); s.stopped = true; s.mu.Unlock() }
 
@@ -334,6 +354,17 @@ func (s *Sim) Run(done func() bool) bool {
 			// nothing enabled: let simulated time advance to the next own
 			// event, or to whatever timer the client has armed.
 			d := s.MaxTime - now
+			// idle quantum: re-evaluate done() regularly; grows while idle so
+			// that long waits stay cheap, resets after every executed event
+			if s.idleQ <= 0 {
+				s.idleQ = 500 * time.Millisecond
+			}
+			if s.idleQ < d {
+				d = s.idleQ
+			}
+			if s.idleQ < time.Hour {
+				s.idleQ *= 2
+			}
 			if next >= 0 && next-now < d {
 				d = next - now
 			}
@@ -370,6 +401,7 @@ func (s *Sim) Run(done func() bool) bool {
 		}
 		s.mu.Unlock()
 		s.Steps++
+		s.idleQ = 0
 		if ev.Desc != "" {
 			s.Logf("STEP %s %s", ev.Key, ev.Desc)
 		}
